@@ -102,6 +102,8 @@ def g_config(t):
         ctl["badmailfrom"] = [J(x) for x in bmf]
     else:
         ctl["badmailfrom"] = None
+    if t.flag(1, 3):
+        ctl["nonl"] = sorted({t.pick(["rcpthosts", "badmailfrom", "morercpthosts", "me", "localiphost"]) for _ in range(t.rng(1, 2))})
     relay = t.pick([None, None, None, b"", b"@relay.example", b".suffix"])
     pool = {"entries": entries + (more if kind != "absent" else []), "doms": doms, "bad_senders": bad_senders,
             "liphost": lip if lip is not None else B(ctl["me"])}
@@ -333,6 +335,19 @@ def grid(foreign):
         "rcpt_first": [rcpt(ok1), D(), mail(), D(), rcpt(ok1), D()],
         "failed_data_ends_txn": [mail(), rcpt(ok1), D(), rcpt(ok1), D()],
     }
+    # the length limit meets the localiphost rule: the literal is replaced by a LONGER (30 bytes) or SHORTER (3 bytes) name, so the address as
+    # typed and the address as stored lie on different sides of the limit (added after seeded change C08-E)
+    for lip, deltas in ((b"mail.local-host-name.a.example", range(-22, 4)), (b"a.b", range(-2, 12))):
+        ctl = dict(ctl0, localiphost=J(lip), rcpthosts=[J(b"a.example"), J(b".a.example"), J(lip)])
+        for dl in deltas:
+            local = b"l" * (898 + dl - len(b"@[127.0.0.1]"))
+            out.append({"d": "smtpd", "env": {"RELAYCLIENT": None}, "ctl": ctl, "db": None, "qq": {"mode": "qq", "exit": 0},
+                        "cmds": [mail(), rcpt(local + b"@[127.0.0.1]"), rcpt(ok1), D()], "cut": None, "grid": "limit_vs_localiphost"})
+    # control files whose last line has no newline (the last entries of ctl0 decide "iplit", "bmf" and "case_and_more")
+    for name in ("iplit", "bmf", "case_and_more", "mixed_rcpts"):
+        for nonl in (["rcpthosts"], ["badmailfrom"], ["morercpthosts"], ["me", "rcpthosts", "badmailfrom", "morercpthosts"]):
+            out.append({"d": "smtpd", "env": {"RELAYCLIENT": None}, "ctl": dict(ctl0, nonl=nonl), "db": None, "qq": {"mode": "qq", "exit": 0},
+                        "cmds": seqs[name], "cut": None, "grid": name + "_no_final_newline"})
     for name, cmds in seqs.items():
         for relay in (None, b"", b"@relay.example"):
             for rh in ("list", "absent", "empty"):
